@@ -87,13 +87,19 @@ struct Ext {
     log: CbLog,
     spec: J,
     lines: Rc<RefCell<i64>>,
+    delivered: Rc<RefCell<String>>,
 }
 impl ExternalFunction for Ext {
     fn call(&mut self, name: &str, args: Vec<ValueType>) -> Option<ValueType> {
         let a: Vec<J> = args.iter().map(val_json).collect();
+        // marker rule (C12): the first argument names a marker word "m<k>q" of the line preceding the call site
+        let seen = match args.first() {
+            Some(ValueType::Int(k)) if *k >= 700000 => self.delivered.borrow().contains(&format!("m{}q", k)),
+            _ => true,
+        };
         self.log
             .borrow_mut()
-            .push(json!({"k":"ext","f":name,"args":a,"lines":*self.lines.borrow()}));
+            .push(json!({"k":"ext","f":name,"args":a,"lines":*self.lines.borrow(),"seen":seen}));
         let kind = self.spec.get("impl").and_then(|x| x.as_str()).unwrap_or("lin");
         match kind {
             "none" => None,
@@ -298,6 +304,7 @@ struct Inst {
     poisoned: bool,
     log: CbLog,
     lines: Rc<RefCell<i64>>,
+    delivered: Rc<RefCell<String>>,
     observers: BTreeMap<i64, Rc<RefCell<dyn VariableObserver>>>,
     seed: Option<i32>,
 }
@@ -445,6 +452,7 @@ fn exec(
                 if !t.is_empty() {
                     *inst.lines.borrow_mut() += 1;
                 }
+                inst.delivered.borrow_mut().push_str(&t);
                 r.insert("val".into(), json!(t));
             }
             Err(e) => fail(&mut r, &e),
@@ -560,6 +568,7 @@ fn exec(
                 log: inst.log.clone(),
                 spec: op.get("spec").cloned().unwrap_or(json!({})),
                 lines: inst.lines.clone(),
+                delivered: inst.delivered.clone(),
             }));
             unit!(st.bind_external_function(&s("name"), f, safe))
         }
@@ -696,6 +705,7 @@ fn run_script(
                 poisoned: false,
                 log: Rc::new(RefCell::new(Vec::new())),
                 lines: Rc::new(RefCell::new(0)),
+                delivered: Rc::new(RefCell::new(String::new())),
                 observers: BTreeMap::new(),
                 seed,
             });
